@@ -1025,6 +1025,9 @@ impl Scenario for Nest {
                     let mut e = tok_end(rng, nm, true);
                     if rng.chance(1, 5) {
                         e.raw = format!("</{}{}>", nm, rng.pick(&[" ", "\n", "  ", "\t"])).into_bytes();
+                    } else if rng.chance(1, 12) {
+                        // bytes that look like blanks but are not XML whitespace: they belong to the name
+                        e.raw = format!("</{}{}>", nm, rng.pick(&["\u{c}", "\u{b}", "\u{a0}", "\u{85}", " \u{c}", "\u{c} ", "\u{2028}", "\u{0}"])).into_bytes();
                     }
                     e
                 }
